@@ -15,9 +15,11 @@ Crs == { <<Seed, R>> : R \in Cross(Seed) }
 Pick(S) == IF Sample = 0 \/ Cardinality(S) <= Sample THEN S ELSE RandomSubset(Sample, S)
 Two2s == { <<Seed, R>> : R \in Pick(SameTable(Seed)) }
 All == Fwd \cup Bwd \cup Two2 \cup Crs \cup Two2s
+Refuse == { <<Seed, R>> : R \in { X \in Inadmissible(Seed) : WF(X) } }
 ASSUME WF(Seed)
 ASSUME \A p \in All : WF(p[1]) /\ WF(p[2])
 ASSUME \A p \in All : \A t \in Present(p[1]) \cap Present(p[2]) : \A c \in Rewritten(p[1], p[2], t) : p[2][t].cols[c].dflt # "none"
-ASSUME PrintT(<<"STATS", ToJson([succ |-> Cardinality(S1), cross |-> Cardinality(Crs), two |-> Cardinality(Two2s), all |-> Cardinality(All)])>>)
+ASSUME PrintT(<<"STATS", ToJson([succ |-> Cardinality(S1), cross |-> Cardinality(Crs), two |-> Cardinality(Two2s), refuse |-> Cardinality(Refuse), all |-> Cardinality(All)])>>)
 ASSUME ndJsonSerialize(OutFile, SetToSeq({ [from |-> p[1], to |-> p[2]] : p \in All }))
+ASSUME ndJsonSerialize("refuse.ndjson", SetToSeq({ [from |-> p[1], to |-> p[2]] : p \in Refuse }))
 ====
